@@ -462,8 +462,13 @@ func buildModels(P *Program) map[string]Model {
 
 	// ---------------- runtime ----------------
 	M["*.mallocgc"] = func(m *Machine, fr *Frame, a []Value) Value {
-		size := a[0].(*Term)
+		size := m.simp(a[0].(*Term))
 		m.noteAlloc(size, "mallocgc")
+		if !size.IsConst() {
+			// M-alloc: a size that can exceed the engine's allocation cap under the current path is reported
+			lim := m.ctx.Const(uint64(m.cfg.MaxAlloc), 64)
+			m.monitor(m.ctx.Ule(size, lim), "monitor", "M-alloc: requested allocation size can exceed 4 MiB on this path (length not bounded by the input)")
+		}
 		n := int(m.concretize(size, "mallocgc size"))
 		if n > m.cfg.MaxAlloc {
 			m.unsupported("mallocgc(%d) too large for the engine", n)
